@@ -88,8 +88,11 @@ def seq_script(prop, kind, ops, with_used):
     s.add("new c %s" % kind)
     cur = []
     ref = StrideRef()
+    ever_stored = False      # did any value ever reach a vector (then capacity may legitimately be retained)
     for op in ops:
-        if op == "c":
+        if isinstance(op, str) and op.startswith("r"):
+            s.add("ireserve c %s" % op[1:], ("eq", "ok"), shape="reserve")
+        elif op == "c":
             s.add("clear c", ("eq", "ok"), shape="clear")
             cur = []
             ref = StrideRef()
@@ -97,20 +100,45 @@ def seq_script(prop, kind, ops, with_used):
             s.add("iextend c [%s]" % ",".join(str(x) for x in op), ("eq", "ok"), shape="ext%d" % len(op))
             for x in op:
                 cur.append(x)
-                ref.push(x)
+                if not ref.push(x) or kind != "idx:opt":
+                    ever_stored = True
         else:
             s.add("ipush c %d" % op, ("eq", "ok"), sig="ipush-panics@" + kind, shape="p" + cls(op, cur))
             cur.append(op)
-            ref.push(op)
+            if not ref.push(op) or kind != "idx:opt":
+                ever_stored = True
         if ref.left_trivial():
             s.nontrivial = True
         if with_used:
             s.add("iobs c", ("eq", obs_line(kind, cur, True)), sig="iobs@" + kind, shape="o")
+            if kind == "idx:opt" and not ever_stored:
+                # "occupies no heap at all": not even reserved capacity
+                s.add("icap c", ("eq", "cap [0, 0]"), cmp="none", sig="free-sequence-holds-capacity@" + kind, shape="cap")
         else:
             exp = obs_line(kind, cur, False)
             s.add("iobs c", ("pred", (lambda e: lambda got, _: None if strip_used(got) == e else "expected " + e)(exp), "faithful sequence"),
-                  sig="iobs@" + kind, shape="o")
+                  cmp="nouse", sig="iobs@" + kind, shape="o")
     return s
+
+
+def cleared_with_data(ops, upto):
+    """after a clear the vectors legitimately keep the capacity they had: only claim zero capacity before the first
+    element ever left the stride"""
+    seen = []
+    ref = StrideRef()
+    for op in ops:
+        if op == "c":
+            ref = StrideRef()
+        elif isinstance(op, tuple):
+            for x in op:
+                if not ref.push(x):
+                    return True
+        elif isinstance(op, int):
+            if not ref.push(op):
+                return True
+        if op is upto:
+            break
+    return False
 
 
 def cls(x, cur):
@@ -146,6 +174,8 @@ def random_seqs(prop, rng, n, maxlen, with_used):
             if r == 0:
                 ops.append("c")
                 k = 0
+            elif r == 2:
+                ops.append("r%d" % rng.below(50))
             elif r == 1:
                 ops.append(tuple(rng.pick(al) for _ in range(rng.below(4))))
             elif mode == 0 and rng.below(8) != 0:
